@@ -144,7 +144,7 @@ class C13(Check):
     def body(self):
         rng = self.rng
         n = 70 if self.tier == "quick" else 600
-        work = os.path.join(self.bdir, "scratch", "cli13")
+        work = os.path.join(self.bdir, "scratch", "p%d_" % os.getpid() + "cli13")
         cases = []
         for k in range(n):
             directed, assort, wfile = rng.random() < 0.5, rng.random() < 0.5, rng.random() < 0.4
@@ -677,7 +677,7 @@ class C14(Check):
                                  dict(rc.describe(), realization=i, case=rc.line("replay")))
                     break
         # end to end through the command line for K >= 3 and both layouts
-        work = os.path.join(self.bdir, "scratch", "cli14")
+        work = os.path.join(self.bdir, "scratch", "p%d_" % os.getpid() + "cli14")
         for k in range(16 if self.tier == "quick" else 80):
             assort = rng.random() < 0.5
             directed = rng.random() < 0.5
@@ -869,7 +869,7 @@ class C16(Check):
                 argv.append("--undirected")
             if assort:
                 argv.append("--assortative")
-            res = run_cli(self.bdir, argv, {"adj.dat": adj, "w.dat": wtext}, os.path.join(self.bdir, "scratch", "fe%d" % k), timeout=120)
+            res = run_cli(self.bdir, argv, {"adj.dat": adj, "w.dat": wtext}, os.path.join(self.bdir, "scratch", "p%d_" % os.getpid() + ("fe%d" % k)), timeout=120)
             self.cov["evaluations"] += 1
             self.monitor("command-line runs on extreme affinity values")
             self.dist("frontend:%s:%s" % (mode, "ok" if res.rc == 0 else "status %s" % res.rc))
@@ -878,7 +878,7 @@ class C16(Check):
                 self.violate("frontend-memory-or-ub", "command line on a shape-correct affinity file with extreme values: %s (status %s)"
                              % (summarise(res.err), res.rc),
                              {"argv": argv, "files": {"adj.dat": adj, "w.dat": wtext}, "status": res.rc, "stderr": res.err[-2500:]})
-            shutil.rmtree(os.path.join(self.bdir, "scratch", "fe%d" % k), ignore_errors=True)
+            shutil.rmtree(os.path.join(self.bdir, "scratch", "p%d_" % os.getpid() + ("fe%d" % k)), ignore_errors=True)
 
     def valgrind_pass(self, rng, n):
         src = os.path.join(C.VERIF, "harness", "reader_main.cpp")
@@ -890,7 +890,7 @@ class C16(Check):
             if r.returncode != 0:
                 self.corr_broken.append(("build", "reader_main", "-", r.stdout[-1500:], ""))
                 return
-        d = os.path.join(self.bdir, "scratch", "vg")
+        d = os.path.join(self.bdir, "scratch", "p%d_" % os.getpid() + "vg")
         shutil.rmtree(d, ignore_errors=True)
         os.makedirs(d)
         files = []
